@@ -48,8 +48,76 @@ def _transform(root: str, kind: str) -> None:
                         fut, _, src = src.partition("\n")
                         fut += "\n"
                     open(p, "w", encoding="utf-8").write(fut + "# header\n" * 7 + src)
+    elif kind == "rename-locals":
+        # every function-local variable (not parameters, not names shared with nested
+        # scopes, not imports, not global/nonlocal) gets the suffix `_v`
+        for dp, dn, fn in os.walk(os.path.join(root, PKG)):
+            for f in fn:
+                if f.endswith(".py"):
+                    p = os.path.join(dp, f)
+                    tree = ast.parse(open(p, encoding="utf-8").read())
+                    _rename_locals(tree)
+                    open(p, "w", encoding="utf-8").write(ast.unparse(tree) + "\n")
     else:
         raise ValueError(kind)
+
+
+def _rename_locals(tree) -> int:
+    import ast
+
+    SCOPES = (ast.FunctionDef, ast.AsyncFunctionDef, ast.Lambda, ast.ClassDef)
+    COMPS = (ast.ListComp, ast.SetComp, ast.DictComp, ast.GeneratorExp)
+    n = 0
+
+    def own(fn):
+        """nodes of fn's own scope (nested defs/lambdas/classes excluded, comprehensions included)"""
+        stack = list(ast.iter_child_nodes(fn))
+        while stack:
+            x = stack.pop()
+            yield x
+            if isinstance(x, SCOPES):
+                continue
+            stack.extend(ast.iter_child_nodes(x))
+
+    for fn in [x for x in ast.walk(tree) if isinstance(x, (ast.FunctionDef, ast.AsyncFunctionDef))]:
+        a = fn.args
+        params = {p.arg for p in a.posonlyargs + a.args + a.kwonlyargs} | ({a.vararg.arg} if a.vararg else set()) | ({a.kwarg.arg} if a.kwarg else set())
+        nodes = list(own(fn))
+        body_nodes = [x for x in nodes if not any(x is d for d in fn.decorator_list)]
+        stored = {x.id for x in body_nodes if isinstance(x, ast.Name) and isinstance(x.ctx, ast.Store)}
+        skip = set(params)
+        for x in body_nodes:
+            if isinstance(x, (ast.Global, ast.Nonlocal)):
+                skip |= set(x.names)
+            elif isinstance(x, (ast.Import, ast.ImportFrom)):
+                skip |= {(al.asname or al.name).split(".")[0] for al in x.names}
+            elif isinstance(x, ast.ExceptHandler) and x.name:
+                skip.add(x.name)
+            elif isinstance(x, SCOPES):
+                # names used or bound anywhere inside a nested scope are shared: leave them
+                if not isinstance(x, ast.Lambda):
+                    skip.add(x.name)
+                skip |= {y.id for y in ast.walk(x) if isinstance(y, ast.Name)}
+                skip |= {y.arg for y in ast.walk(x) if isinstance(y, ast.arg)}
+            elif isinstance(x, COMPS):
+                for g in x.generators:
+                    skip |= {y.id for y in ast.walk(g.target) if isinstance(y, ast.Name)}
+            elif isinstance(x, ast.MatchAs) and x.name:
+                skip.add(x.name)
+            elif isinstance(x, ast.NamedExpr):
+                skip.add(x.target.id)
+            elif isinstance(x, ast.Call) and isinstance(x.func, ast.Name) and x.func.id in ("locals", "vars", "eval", "exec"):
+                skip |= stored
+        # decorators and defaults are evaluated in the enclosing scope
+        outer_names = {y.id for d in fn.decorator_list for y in ast.walk(d) if isinstance(y, ast.Name)}
+        outer_names |= {y.id for d in a.defaults + [k for k in a.kw_defaults if k is not None] for y in ast.walk(d) if isinstance(y, ast.Name)}
+        todo = stored - skip
+        default_ids = {id(y) for d in a.defaults + [k for k in a.kw_defaults if k is not None] for y in ast.walk(d)}
+        for x in body_nodes:
+            if isinstance(x, ast.Name) and x.id in todo and id(x) not in default_ids:
+                x.id = x.id + "_v"
+                n += 1
+    return n
 
 
 def apply_edit(root: str, edit: dict) -> bool:
